@@ -177,7 +177,7 @@ def main(argv=None):
             except Exception as e:  # noqa: BLE001
                 frames = traceback.extract_tb(e.__traceback__)
                 in_impl = [f for f in frames if str(Path(f.filename).resolve()).startswith(str((REPO / 'src').resolve()))]
-                if in_impl:
+                if in_impl and not isinstance(e, MemoryError) and "can't allocate memory" not in str(e):
                     # the library raised on an input for which the property promises a result (the harness only makes calls that
                     # succeed on the tree it was written against): that is a failing input, not an infrastructure problem
                     last = in_impl[-1]
